@@ -68,3 +68,19 @@ Proof. vm_compute. reflexivity. Qed.
 Example c16_example_zero :
   write_all_vectored [Accept 4; Zero] [[1; 2; 3]; [4; 5]]%N [] = ([], [1; 2; 3; 4]%N, WZero).
 Proof. vm_compute. reflexivity. Qed.
+
+(* Whole entries: for every configuration, formatter state, entry and writer script, compared with an all-accepting
+   writer — a rejected entry is rejected alike and writes nothing; otherwise the bytes received are a prefix of the
+   entry's records (nothing duplicated, nothing out of order), exactly the records when the call reports success, and
+   the only other outcome is an I/O error for this entry. *)
+From MV Require Import Emf.Partial.
+Theorem c16_entry_records : forall c s mult e now ftab script,
+  let a := format c s mult e now ftab script in
+  let b := format c s mult e now ftab [] in
+  (forall m, res_of b = RValidation m -> res_of a = RValidation m /\ out_of a = []) /\
+  (res_of b = ROk ->
+     is_prefix (out_of a) (out_of b) /\
+     (res_of a = ROk -> out_of a = out_of b) /\
+     (exists z, res_of a = ROk \/ res_of a = RIo z)).
+Proof. intros. unfold a, b, format. apply finish_vs_accept. Qed.
+Print Assumptions c16_entry_records.
